@@ -312,6 +312,28 @@ fn documents() -> Vec<(&'static str, String)> {
 			r#"{"tilejson":"3.0.0","name":"v","vector_layers":[{"id":"roads","description":"all \"roads\"","minzoom":4,"maxzoom":14,"fields":{"kind":"String","lanes":"Number","name:de":"a \\ b"}},{"id":"water","fields":{}}]}"#.to_string(),
 		),
 		("zoom range and bounds tighter than the stored coverage (must not be widened)", r#"{"tilejson":"3.0.0","minzoom":4,"maxzoom":4,"bounds":[1.5,60.1,2.5,60.9],"name":"tight"}"#.to_string()),
+		(
+			"vector_layers with every presence pattern of the optional members (description, minzoom, maxzoom, non-empty fields)",
+			{
+				let layers: Vec<String> = (0..16u32)
+					.map(|m| {
+						let mut parts = vec![format!("\"id\":\"l{m:02}\"")];
+						if m & 1 != 0 {
+							parts.push(format!("\"description\":\"d{m}\""));
+						}
+						if m & 2 != 0 {
+							parts.push(format!("\"minzoom\":{}", m % 5));
+						}
+						if m & 4 != 0 {
+							parts.push(format!("\"maxzoom\":{}", 6 + m % 7));
+						}
+						parts.push(if m & 8 != 0 { "\"fields\":{\"a\":\"String\",\"b\":\"Number\"}".to_string() } else { "\"fields\":{}".to_string() });
+						format!("{{{}}}", parts.join(","))
+					})
+					.collect();
+				format!("{{\"tilejson\":\"3.0.0\",\"name\":\"patterns\",\"vector_layers\":[{}]}}", layers.join(","))
+			},
+		),
 		("custom string and list keys", r#"{"tilejson":"3.0.0","author":"x","license":"ODbL","type":"baselayer","legend":"l","template":"{{x}}","grids":["g1"],"data":["d1","d2"]}"#.to_string()),
 	]
 }
@@ -460,6 +482,39 @@ fn part_containers(ctx: &Arc<Ctx>) {
 			}
 		}
 		ct::cleanup(&w);
+		// a second export to the same path with a document of the same length that differs in one character: the
+		// container must hand back the second document
+		if text.contains("\"tilejson\":\"3.0.0\"") {
+			let text2 = text.replace("\"tilejson\":\"3.0.0\"", "\"tilejson\":\"3.0.1\"");
+			let path = wpath.join(format!("again{ji}.{}", ct::ext(cont)));
+			let _ = std::fs::remove_file(&path);
+			let _ = std::fs::remove_dir_all(&path);
+			if cont == Cont::Directory {
+				std::fs::create_dir_all(&path).unwrap();
+			}
+			let mut ok = true;
+			for t in [text.as_str(), text2.as_str()] {
+				let Ok(tj) = TileJSON::try_from(t) else { ok = false; break };
+				let mut src = MemSource::new("m", tr.clone(), TileFormat::PNG, ct::comp_from_id(comp)).with_tilejson(tj);
+				if ct::write_to_existing_path(&rt, cont, &mut src, &path).is_err() {
+					ok = false;
+					break;
+				}
+			}
+			if ok {
+				match ct::open(&rt, cont, &ct::Written::Path(path.clone())) {
+					Ok(r) => {
+						let got: Value = serde_json::from_str(&r.get_tilejson().as_string()).unwrap_or(Value::Null);
+						if got.get("tilejson").and_then(|v| v.as_str()) != Some("3.0.1") {
+							ctxr.violation(&format!("{}: after a second export to the same path the container returns the TileJSON of the first one", cont.name()), &format!("{dname}: returned tilejson member {:?}, the second document says 3.0.1", got.get("tilejson")), case.clone());
+						}
+					}
+					Err(e) => ctxr.violation(&format!("{}: container written twice to the same path cannot be opened: {}", cont.name(), super::c01::norm_msg(&e)), &format!("{dname}: {e}"), case.clone()),
+				}
+			}
+			let _ = std::fs::remove_file(&path);
+			let _ = std::fs::remove_dir_all(&path);
+		}
 		ctxr.nontrivial(fnv_str(&format!("{di}{cont:?}{comp}")));
 	});
 	// PMTiles: tile counts just below the point where the root directory no longer fits its 16 KiB area - the
